@@ -179,8 +179,8 @@ fn judge(c: &Case, t: &mut Tally) -> Option<(String, String)> {
     None
 }
 
-const TITLES: [&str; 6] = ["", "t", "ti", "tit", "titl", "題"];
-const KEYS: [&str; 4] = ["", "K", "MID_キー", "a.b"];
+const TITLES: [&str; 6] = ["", "t", "ti", "tit", "ﾄｱtl", "題"];
+const KEYS: [&str; 4] = ["", "K", "MID_キーﾂｱ", "a.b"];
 const MSG3: [&str; 3] = ["", "m", "日本"];
 
 fn family1() -> Vec<Case> {
@@ -215,7 +215,7 @@ fn family1() -> Vec<Case> {
 
 fn alphabet(fmt: Fmt) -> Vec<String> {
     let all = ["a", "\n", "\\", "é", "日", "😀", "\u{FEFF}", "\u{FFFE}", "\u{BBEF}", "\u{00BF}"];
-    all.iter().filter(|s| fmt == Fmt::Unicode || sjis::lossless(s)).map(|s| s.to_string()).chain(if fmt == Fmt::ShiftJis { vec!["ｿ".to_string(), "¥".to_string()].into_iter().filter(|s| sjis::lossless(s)).collect::<Vec<_>>() } else { vec![] }).collect()
+    all.iter().filter(|s| fmt == Fmt::Unicode || sjis::lossless(s)).map(|s| s.to_string()).chain(if fmt == Fmt::ShiftJis { vec!["ｿ".to_string(), "ﾂｱ".to_string(), "¥".to_string()].into_iter().filter(|s| sjis::lossless(s)).collect::<Vec<_>>() } else { vec![] }).collect()
 }
 
 /// index → message (all strings of 0..=n symbols)
